@@ -7,11 +7,13 @@ Search: the property's own oracle (vt/harness/c11_oracle.py) on the archive."""
 import concurrent.futures
 import json
 import os
+import queue
 import random
 import subprocess
+import time
 
 from vt import core
-from vt.harness import c11_oracle, c11_wiki
+from vt.harness import c11_oracle, c11_shrink, c11_wiki
 
 LEVEL = "proof"
 NPROC = min(16, core.NPROC)
@@ -41,6 +43,89 @@ def run_real(cases, src, brief=True, timeout=3000):
         for r in part:
             byid[r["id"]] = r
     return [byid[c["id"]] for c in cases]
+
+
+class Workers:
+    """persistent harness processes (one case in, one result out): the shrinker runs thousands of small cases and
+    must not pay the interpreter + import start-up for each batch"""
+
+    def __init__(self, src, n):
+        self.idle = queue.Queue()
+        self.procs = []
+        base = os.path.join(core.scratch(), "c11w")
+        for k in range(n):
+            p = subprocess.Popen([core.PY, "-m", "vt.harness.c11_impl", os.path.join(base, "w%d" % k), "brief"], cwd=core.VERIF,
+                                 env=core.impl_env(src), stdin=subprocess.PIPE, stdout=subprocess.PIPE,
+                                 stderr=subprocess.DEVNULL, text=True, bufsize=1)
+            self.procs.append(p)
+            self.idle.put(p)
+        self.n = n
+
+    def one(self, case):
+        p = self.idle.get()
+        try:
+            p.stdin.write(json.dumps(case) + "\n")
+            p.stdin.flush()
+            while True:
+                line = p.stdout.readline()
+                if not line:
+                    raise RuntimeError("c11 harness worker died")
+                if line.startswith("{"):
+                    return json.loads(line)
+        finally:
+            self.idle.put(p)
+
+    def map(self, cases):
+        if not cases:
+            return []
+        with concurrent.futures.ThreadPoolExecutor(self.n) as ex:
+            return list(ex.map(self.one, cases))
+
+    def close(self):
+        for p in self.procs:
+            try:
+                p.stdin.close()
+            except OSError:
+                pass
+        for p in self.procs:
+            try:
+                p.wait(timeout=20)
+            except subprocess.TimeoutExpired:
+                p.kill()
+
+
+# kinds of violation whose fingerprint suffix only describes the SHAPE of the input (it may change while the input
+# is shrunk); for all others (exceptions, not-skipped:*) the whole fingerprint has to stay
+SHAPE_KINDS = ("article-missing", "article-text", "contributors-article", "contributors-image", "image-missing",
+               "image-file", "image-info", "image-description")
+
+
+def kind_of(fp):
+    k = fp.split(":", 1)[0]
+    return k if k in SHAPE_KINDS else fp
+
+
+def minimise(case, want, workers, seconds, log=None):
+    """delta debugging of a failing case (vt/harness/c11_shrink.py): pages, revisions, template/image uses,
+    contributors, metabook items, chapters, options, schedule.  `want` = kind_of(fingerprint) that has to show."""
+    def shows(c, r):
+        if r.get("harness_error"):
+            return False
+        try:
+            return any(kind_of(fp) == want for fp, _w in c11_oracle.judge(c, r))
+        except Exception:
+            return False
+
+    def test_batch(cs):
+        ok = [c11_oracle.in_domain(c) for c in cs]
+        res = workers.map([c for c, o in zip(cs, ok) if o])
+        it = iter(res)
+        return [o and shows(c, next(it)) for c, o in zip(cs, ok)]
+    small, info = c11_shrink.shrink(case, test_batch, workers.one, seconds=seconds)
+    # a replay must reproduce: run the result three more times
+    again = workers.map([small] * 3)
+    info["reproduced_3_of_3"] = all(shows(small, r) for r in again)
+    return small, info
 
 
 # ----------------------------------------------------------------------------- abstraction W -> model input
@@ -210,10 +295,18 @@ def shape_of(case):
                 feats.add("plain")
     if any("chapter" in x for x in case["metabook"]):
         feats.add("chapters")
+    specs = {}
+    for it in arts:
+        specs.setdefault(it["title"], set()).add(it.get("revision"))
+    for v in specs.values():
+        if len(v) >= 2:
+            feats.add("same-title-pinned+unpinned" if None in v else "same-title-pinned+pinned")
+            if len(v) >= 3:
+                feats.add("same-title-3+listings")
     return feats
 
 
-def check_cases(run, cases, src, exe, stats):
+def check_cases(run, cases, src, exe, stats, found):
     results = run_real(cases, src)
     dis = []
     # ---- monitor
@@ -228,6 +321,11 @@ def check_cases(run, cases, src, exe, stats):
         stats["requests"] += len(res.get("requests", []))
         stats["continuations"] += sum(1 for q in res.get("requests", []) if q[3])
         stats["max_inflight"] = max(stats["max_inflight"], res.get("max_inflight", 0))
+        nii = sum(1 for q in res.get("requests", []) if (q[2] or "").startswith("imageinfo"))
+        stats["cases_with_2+_imageinfo_batches"] += 1 if nii >= 2 else 0
+        lat = case["opts"].get("latency", "random")
+        lat = "explicit" if isinstance(lat, list) else lat
+        stats["latency_mode"][lat] = stats["latency_mode"].get(lat, 0) + 1
         stats["greenlet_skips"] += len(res.get("greenlet_errors", []))
         o = case["opts"]
         stats["noimages"] += 1 if o.get("noimages") else 0
@@ -236,19 +334,19 @@ def check_cases(run, cases, src, exe, stats):
         done = [q[5] for q in res.get("requests", []) if q[5] is not None]
         if done != sorted(done):
             stats["cases_with_reordered_completions"] += 1
-        size = len(json.dumps(case))
+        # representative of a kind of violation: reproducible schedule first, then the smallest case
+        size = (1 if o.get("latency", "random") == "random" else 0, len(json.dumps(case)))
         for fp, what in hits:
-            if fp not in best or size < best[fp][0]:
-                best[fp] = (size, what, case)
+            k = kind_of(fp)
+            if k not in best or size < best[k][0]:
+                best[k] = (size, what, case, fp)
             stats["hits"][fp] = stats["hits"].get(fp, 0) + 1
         if not hits and len(run.samples) < 4 and len(feats) >= 3:
             run.sample({"metabook": case["metabook"], "opts": case["opts"], "pages": [p["title"] for p in case["wiki"]["pages"]],
                         "archive_pages": [r[:3] for r in res["all"]["revisions"]][:12], "requests": len(res["requests"])})
-    for fp, (_size, what, case) in sorted(best.items()):
-        full = run_real([case], src, brief=False)[0]
-        full.pop("all", None)
-        run.hit(fingerprint=fp, what=what, replay={"case": case, "observed": {k: full.get(k) for k in ("terminated", "exc", "greenlet_errors", "articles", "images")},
-                                                   "request_log": full.get("requests"), "downloads": full.get("downloads")})
+    for k, cand in best.items():
+        if k not in found or cand[0] < found[k][0]:
+            found[k] = cand
     # ---- correspondence with the extracted model
     if exe is not None:
         lines = []
@@ -302,14 +400,55 @@ def check_cases(run, cases, src, exe, stats):
     return dis
 
 
+def report_hits(run, found, src, stats):
+    """every kind of violation the monitor saw: minimise the representative case, re-judge it, report it with the
+    full request log of the minimised case"""
+    if not found:
+        return
+    total = 60 if run.tier == "quick" else 420
+    t_end = time.time() + total
+    workers = Workers(src, NPROC)
+    try:
+        todo = sorted(found.items(), key=lambda kv: kv[1][0])
+        stats["shrink"] = []
+        for n, (k, (_size, what, case, fp)) in enumerate(todo):
+            left = t_end - time.time()
+            info = {"note": "no time left for shrinking"}
+            small = case
+            if left > 3 and n < 8:
+                small, info = minimise(case, k, workers, max(3.0, left / max(1, min(len(todo), 8) - n)))
+            res = workers.one(small)
+            hits = [(f, w) for f, w in c11_oracle.judge(small, res) if kind_of(f) == k]
+            if hits:
+                fp, what = sorted(hits)[0]
+            else:
+                small, info = case, dict(info, note="the minimised case did not show the violation again; original case kept")
+            small = dict(small, shrunk=info)
+            stats["shrink"].append(dict(info, fingerprint=fp))
+            full = run_real([small], src, brief=False)[0]
+            full.pop("all", None)
+            run.hit(fingerprint=fp, what=what,
+                    replay={"case": small, "observed": {x: full.get(x) for x in ("terminated", "exc", "greenlet_errors", "articles", "images")},
+                            "request_log": full.get("requests"), "downloads": full.get("downloads")})
+    finally:
+        workers.close()
+
+
 def check(run):
     run.rule = ("synthetic wikis: 1-9 articles with 1-4 revisions (an old one may be a redirect), 0-6 templates forming a DAG of "
                 "depth <=6 (+ a missing template), 0-14 images (10% without file, + referenced images without page), 0-5 redirects "
                 "(chains into articles or redirects, dead ends, self loops, 2-cycles), contributors from a pool incl. bot names, anon "
                 "counts; metabooks of 1-10 items: titles / pinned revisions (current, old, redirect text, nonexistent revid), redirects, "
-                "missing titles, chapters, duplicates; the quantifier's exclusion is enforced (a title reached through a listed "
-                "redirect is not listed pinned); api_request_limit, api_result_limit, rvlimit in 1..50 (biased to 1,2,3), 25% "
-                "noimages; response latencies 0 / U(0,2ms) / U(2,8ms) per request via gevent.sleep. distinct = distinct (wiki, "
+                "missing titles, chapters, duplicates, in 35% of the cases one page listed 2..n+1 times with different revisions "
+                "(pinned+pinned, pinned+unpinned, all revisions + unpinned); the quantifier's exclusion is enforced (a title "
+                "reached through a listed redirect is not listed pinned); api_request_limit, api_result_limit, rvlimit in 1..50 "
+                "(biased to 1,2,3), 25% noimages; response latencies per request/download: 75% VIRTUAL (k cooperative yields, a "
+                "function of the case's seed, so the interleaving replays exactly: k in 0 / 1-4 / 5-25 / 26-90 per request, or "
+                "a per-case typical delay 0..45 for each KIND of request - siteinfo, parse, expandtemplates, imageinfo, "
+                "contributors, page texts, image lists, downloads - plus jitter), 10% real time "
+                "(0 / U(0,2ms) / U(2,8ms) via gevent.sleep), 15% one yield or none. Every kind of violation found is "
+                "delta-debugged (pages, revisions, template/image uses, contributors, metabook items, options, the "
+                "schedule as an explicit list of yield counts) before it is reported. distinct = distinct (wiki, "
                 "metabook, options); non-trivial = some listed item is not a plain existing title, or the wiki has > 4 pages")
     run.trusted = ["Coq 8.16.1 kernel (coqc); vm_compute only in the Examples",
                    "extraction (ExtrOcamlBasic directives only) + ocaml/c11/driver.ml (parser/printer)",
@@ -322,8 +461,10 @@ def check(run):
                        "the API answers in the legacy raw-continue format (query-continue), which is the only one sapi.py follows",
                        "NOT modelled: HTTP transport/retries, OAuth, rate limiting, HTML/timeline/mapframe scraping (parse output is only "
                        "used for its image list), print templates, licenses, multi-wiki collections"]
+    t0 = time.time()
     src = core.snapshot()
     run.check_proofs("C11")
+    t_proofs = time.time() - t0
     try:
         exe = build()
     except Exception as e:      # model does not build: the monitor still runs
@@ -341,11 +482,16 @@ def check(run):
     for i in range(n):
         cases.append(c11_oracle.gen_case(run.rng, i, run.tier))
     stats = {"features": {}, "requests": 0, "continuations": 0, "max_inflight": 0, "greenlet_skips": 0, "noimages": 0,
-             "req_limit_1": 0, "cases_with_reordered_completions": 0, "hits": {}, "model_steps": 0}
+             "req_limit_1": 0, "cases_with_reordered_completions": 0, "hits": {}, "model_steps": 0,
+             "cases_with_2+_imageinfo_batches": 0, "latency_mode": {}}
     dis = []
     chunk = 1000
+    found = {}
     for i in range(0, len(cases), chunk):
-        dis += check_cases(run, cases[i:i + chunk], src, exe, stats)
+        dis += check_cases(run, cases[i:i + chunk], src, exe, stats, found)
+    t1 = time.time()
+    report_hits(run, found, src, stats)
+    stats["wall_s"] = {"snapshot+coq": round(t_proofs, 1), "cases": round(t1 - t0 - t_proofs, 1), "shrink+report": round(time.time() - t1, 1)}
     run.tie("archive written by the real make_nuwiki (read back with nuwiki.Adapt) = final state of the extracted model under 3 schedules = extracted spec `needed`",
             len(cases), dis)
     run.coverage["exhaustive"] = False
